@@ -77,6 +77,20 @@ type chunkConn struct {
 	closed   bool
 	duplex   bool   // keep what the server writes for the peer (TLS)
 	outq     []byte // server -> peer
+	reads    []int  // sizes of the Read calls that returned data since takeReads
+}
+
+// takeReads returns the sizes of the real reads since the last call: how the chunks handed over were
+// actually cut by the capacity the reader offered (a chunk larger than the free read buffer takes several reads).
+func (c *chunkConn) takeReads() []int {
+	c.mu.Lock()
+	defer c.mu.Unlock()
+	r := c.reads
+	c.reads = nil
+	if r == nil {
+		r = []int{}
+	}
+	return r
 }
 
 func newChunkConn() *chunkConn {
@@ -92,6 +106,7 @@ func (c *chunkConn) Read(p []byte) (int, error) {
 		if len(c.rest) > 0 {
 			n := copy(p, c.rest)
 			c.rest = c.rest[n:]
+			c.reads = append(c.reads, n)
 			c.cond.Broadcast()
 			return n, nil
 		}
@@ -437,8 +452,11 @@ func serverTLSConfig() *mtlstls.Config {
 // "list" (a protocol list: matchers of the listed protocols only)
 // transport: "plain" (the socket itself), "inspector" (listener in TLS inspector mode, plain-text client: the
 // first byte is peeked by mtls.Conn before the connection exists), "tls" (TLS client on the inspector listener)
-func newHarness(proto, mode, transport string) *harness {
+func newHarness(proto, mode, transport string, readBuf int) *harness {
 	ctx := baseCtx()
+	if readBuf > 0 { // the listener's default read buffer size (activeListener.OnAccept sets this variable)
+		_ = variable.Set(ctx, types.VariableConnDefaultReadBufferSize, readBuf)
+	}
 	cc := newChunkConn()
 	h := &harness{cc: cc, transport: transport, s: &sink{notify: make(chan struct{}, 1), h1: proto == "Http1"}, ready: make(chan struct{})}
 	h.f = &filter{ctx: ctx, s: h.s}
@@ -691,6 +709,13 @@ type run struct {
 	lens  []int
 	units []int
 	ref   []string // digest of every message under whole delivery
+	refIx map[string]int
+	building bool // the reference delivery is being played: what arrives defines the content of message k
+	ends  []int // end offsets of the messages / of the units
+	uends []int
+	// burst runs: read buffer size the listener is configured with (0 = default) and extra fields of the run event
+	readBuf int
+	extra   vh.Ev
 }
 
 func prepare(sp streamSpec) *run {
@@ -699,6 +724,16 @@ func prepare(sp streamSpec) *run {
 		r.all = append(r.all, m.b...)
 		r.lens = append(r.lens, len(m.b))
 		r.units = append(r.units, m.units...)
+	}
+	acc := 0
+	for _, l := range r.lens {
+		acc += l
+		r.ends = append(r.ends, acc)
+	}
+	acc = 0
+	for _, l := range r.units {
+		acc += l
+		r.uends = append(r.uends, acc)
 	}
 	return r
 }
@@ -724,8 +759,14 @@ func (r *run) playT(cls string, cuts, pauses []int, mode, transport string) (abo
 	if transport == "inspector" {
 		peek = 1
 	}
-	ev := vh.Ev{"ev": "run", "proto": r.sp.Proto, "cls": cls, "lens": r.lens, "units": r.units, "mode": mode,
-		"conts": r.sp.Conts, "shapes": r.sp.Shapes, "cuts": cuts, "pauses": pauses, "transport": transport, "peek": peek}
+	ev := vh.Ev{"ev": "run", "proto": r.sp.Proto, "cls": cls, "lens": r.lens, "units": r.units, "ends": r.ends, "uends": r.uends,
+		"mode": mode, "conts": r.sp.Conts, "cuts": cuts, "pauses": pauses, "transport": transport, "peek": peek}
+	if len(r.sp.Shapes) <= 16 {
+		ev["shapes"] = r.sp.Shapes
+	}
+	for k, v := range r.extra {
+		ev[k] = v
+	}
 	if strings.HasPrefix(mode, "list:") {
 		l := strings.Split(mode[5:], ",")
 		ev["listn"] = len(l)
@@ -737,21 +778,17 @@ func (r *run) playT(cls string, cuts, pauses []int, mode, transport string) (abo
 	}
 	tr.Emit(ev)
 	nruns++
-	h := newHarness(r.sp.Proto, mode, transport)
+	h := newHarness(r.sp.Proto, mode, transport, r.readBuf)
 	defer h.close()
 	prev, reported := 0, 0
-	ends := make([]int, len(r.lens))
-	acc := 0
-	for i, l := range r.lens {
-		acc += l
-		ends[i] = acc
-	}
+	ends := r.ends
 	pauseAt := map[int]bool{}
 	for _, p := range pauses {
 		pauseAt[p] = true
 	}
 	// report emits what happened since the last event; true = the run ends here
 	report := func(ev string, n int, e string) bool {
+		reads := h.cc.takeReads()
 		h.s.mu.Lock()
 		fresh := append([]seen{}, h.s.got[reported:]...)
 		reported = len(h.s.got)
@@ -760,7 +797,7 @@ func (r *run) playT(cls string, cuts, pauses []int, mode, transport string) (abo
 		h.s.mu.Unlock()
 		got := []map[string]interface{}{}
 		for k, g := range fresh {
-			if k >= 12 { // a runaway decoder: the first entries tell the story
+			if k >= len(r.msgs)+12 { // a runaway decoder: the first entries tell the story
 				break
 			}
 			got = append(got, r.identify(cls, g.digest))
@@ -774,7 +811,11 @@ func (r *run) playT(cls string, cuts, pauses []int, mode, transport string) (abo
 			buffered = h.buffered()
 		}
 		if ev == "feed" {
-			tr.Emit(vh.Ev{"ev": "feed", "n": n, "got": got, "buffered": buffered})
+			fe := vh.Ev{"ev": "feed", "n": n, "got": got, "buffered": buffered}
+			if r.extra != nil { // burst runs: how the chunk was really cut into reads (realised burst sizes)
+				fe["reads"] = reads
+			}
+			tr.Emit(fe)
 		} else {
 			tr.Emit(vh.Ev{"ev": "pause", "got": got, "buffered": buffered})
 		}
@@ -805,12 +846,7 @@ func (r *run) playT(cls string, cuts, pauses []int, mode, transport string) (abo
 		if c <= prev || c > len(r.all) {
 			continue
 		}
-		want := 0
-		for _, e := range ends {
-			if e <= c {
-				want++
-			}
-		}
+		want := sort.SearchInts(ends, c+1) // messages wholly inside the first c bytes
 		e := h.feed(r.all[prev:c], want)
 		n := c - prev
 		prev = c
@@ -827,17 +863,21 @@ func (r *run) playT(cls string, cuts, pauses []int, mode, transport string) (abo
 }
 
 func (r *run) identify(cls, digest string) map[string]interface{} {
-	if cls == "whole" {
+	if r.building {
 		// reference run: the k-th message handed over defines the content of message k; it must carry k's marker
 		k := len(r.ref) + 1
 		r.ref = append(r.ref, digest)
 		ok := k <= len(r.msgs) && strings.Count(digest, r.msgs[k-1].marker)+strings.Count(digest, hex.EncodeToString([]byte(r.msgs[k-1].marker))) >= 1
 		return map[string]interface{}{"i": k, "ok": ok}
 	}
-	for k, d := range r.ref {
-		if d == digest {
-			return map[string]interface{}{"i": k + 1, "ok": true}
+	if r.refIx == nil || len(r.refIx) != len(r.ref) {
+		r.refIx = map[string]int{}
+		for k := len(r.ref) - 1; k >= 0; k-- {
+			r.refIx[r.ref[k]] = k
 		}
+	}
+	if k, ok := r.refIx[digest]; ok {
+		return map[string]interface{}{"i": k + 1, "ok": true}
 	}
 	for k, m := range r.msgs {
 		if strings.Contains(digest, m.marker) || strings.Contains(digest, hex.EncodeToString([]byte(m.marker))) {
@@ -883,6 +923,8 @@ type zcase struct {
 	Pauses []int `json:"pauses"` // model offsets (bytes sent) at which the read deadline expires
 	Tmo    int   `json:"tmo"`    // 1: case of the transport/timeout model: played over every transport
 	Prior  int   `json:"prior"`  // size class of a message delivered and consumed before the schedule starts
+	Burst  int   `json:"burst"`  // Framing.tla Burst: most frames that became complete with one read (model frames)
+	Scale  int   `json:"scale"`  // burst cases: one model frame stands for a run of this many small messages
 }
 
 // priorShape: the message that makes the connection's read buffer grow before the schedule starts:
@@ -974,16 +1016,40 @@ var lastPauses []int
 var refCache = map[string]*run{}
 
 // withRef returns the prepared stream with its whole-delivery reference recorded (once per distinct stream).
-func withRef(sp streamSpec) (*run, bool) {
+func withRef(sp streamSpec) (*run, bool) { return withRefBy(sp, false) }
+
+// withRefBy: smallReads = the reference delivery hands over 1, 2, .. 8, 1, 2, .. whole messages per read (the
+// reference of the long streams of the burst class, whose delivery in one piece is itself a case under test;
+// every small number of messages per read occurs in it many times).
+func withRefBy(sp streamSpec, smallReads bool) (*run, bool) {
 	key, _ := json.Marshal(sp)
 	if r, ok := refCache[string(key)]; ok {
 		return r, r != nil
 	}
 	r := prepare(sp)
-	ab := r.play("whole", []int{len(r.all)}, "fixed")
+	r.building = true
+	var ab bool
+	if smallReads {
+		cuts := []int{}
+		for k, g := 0, 1; k < len(r.ends); g = g%8 + 1 {
+			k += g
+			if k > len(r.ends) {
+				k = len(r.ends)
+			}
+			cuts = append(cuts, r.ends[k-1])
+		}
+		ab = r.play("ref-small-reads", cuts, "fixed")
+	} else {
+		ab = r.play("whole", []int{len(r.all)}, "fixed")
+	}
+	r.building = false
 	if ab || len(r.ref) != len(r.msgs) {
 		refCache[string(key)] = nil
 		return nil, false
+	}
+	r.refIx = map[string]int{}
+	for k := len(r.ref) - 1; k >= 0; k-- {
+		r.refIx[r.ref[k]] = k
 	}
 	refCache[string(key)] = r
 	return r, true
@@ -1000,7 +1066,9 @@ func variants(proto string) []streamSpec {
 }
 
 func main() {
-	mode := flag.String("mode", "zones", "zones|native|detect")
+	mode := flag.String("mode", "zones", "zones|native|burst|detect|e2e")
+	bursts := flag.String("bursts", "", "cases file of the burst class (burst, e2e)")
+	bytewise := flag.Bool("bytewise", false, "burst: also feed a run of a hundred messages byte by byte")
 	cases := flag.String("cases", "", "cases file (zones)")
 	out := flag.String("trace", "", "trace output")
 	protos := flag.String("protos", strings.Join(protoNames, ","), "protocols")
@@ -1242,10 +1310,18 @@ func main() {
 				})
 			}
 		}
+	case "burst":
+		bz := readZCases(*bursts)
+		for _, p := range plist {
+			for _, v := range variants(p) {
+				v := v
+				work(func() { runBurst(v, bz, *bytewise) })
+			}
+		}
 	case "detect":
 		runDetect(plist, readShapes(*lists), rng)
 	case "e2e":
-		runE2E(*cases, *nrand)
+		runE2E(*cases, *nrand, readZCases(*bursts))
 	}
 	finish()
 }
